@@ -59,32 +59,18 @@ ASSUMPTIONS = [
     "rider, not a simulation of export: no scheduling, no fault injection; the only seeded inputs are the tree history and the export parameters",
     "the oracle's tree is the revision tree read through the Tree API (all_versioned_paths / kind / get_file_text / is_executable / get_symlink_target); it must equal the treesim model's committed snapshot (bzr: incl. file ids and directories; git: files and symlinks, directories = ancestors of files) - a disagreement there is reported as 'revtree_model', not as an export failure",
     "documented exclusion = tree.is_special_path(tree path): bzr trees drop tree paths starting with '.bzr' (.bzrignore, .bzrrules at the ROOT only), git trees paths starting with '.git' (.gitignore at the root only); the same names below a directory are exported; with subdir the test applies to the tree path, not to the exported path",
-    "filtered exports (ContentFilterTree, as the command line builds it): ContentFilterTree does not forward is_special_path, so special paths may be present or absent - both accepted; no rules are configured, so contents must be unchanged",
+    "filtered exports (ContentFilterTree, as the command line builds it; no rules are configured, so contents must be unchanged) are generated freely, also over symlinks and with per-file timestamps, and are held to the same oracle as unfiltered ones including the special-path exclusion: ContentFilterTree forwards get_symlink_target, get_file_mtime, is_versioned and is_special_path since /repo commit 0885a79, which repaired the two findings of this check (filtered export of a tree with a symlink / with per-file timestamps raised NotImplementedError; regression replays: findings/C42-finding-filtered_symlink.json, findings/C42-finding-filtered_pft.json) and the inconsistency that --filters exports contained .bzrignore",
     "zip cannot carry what breezy's zip exporter does not write: executable bits are not asserted for zip (every file is written 0644, pinned by blackbox.test_export), a symlink is expected as a regular member '<name>.lnk' holding the target, directories as members with a trailing '/'; names ending in '.lnk' are not generated (they could collide with a symlink's representation); non-ASCII names in zip are asserted although `brz help export` calls them unsupported (they work with Python 3's zipfile)",
     "format 'dir' ignores root (documented in `brz help export`); the destination does not exist beforehand; umask 022",
     "subdir naming a file or symlink: that single entry is expected under its base name (what _export_iter_entries documents); subdir not versioned in the revision is not exercised",
     "timestamps: nothing is asserted without per_file_timestamps (the docstring allows now()); with per_file_timestamps a FILE's mtime must be the commit time of a revision <= the exported one in which the file (bzr: same file id; git: same path) has the content it has in the exported revision, any other member's mtime must be the commit time of some revision <= the exported one; zip times are not compared (DOS local time); real mtimes never enter the event log",
     "treesim guards are all on (checks/treesim.py GUARDS): histories never enter states with recorded working-tree defects; smart_add file ids are made from hex-escaped paths (ids must not contain whitespace)",
     "history generation additionally stays out of two working-tree corners that this namespace would reach and that are not export's business (both raise inside the tree operation on the current tree): an ignore file (.bzrignore/.gitignore) that is a directory or dangling symlink (is_ignored raises IsADirectoryError/NoSuchFile), and remove without --keep/--force of a non-ASCII path (backup name lookup passes the unescaped path to transport.has: InvalidURL)",
-    "own guards (GUARDS below) keep exports out of two defects of ContentFilterTree found by this check (filtered export of a tree with a symlink, filtered export with per-file timestamps: NotImplementedError); they are lifted in VERIF_UNGUARDED of the runs, or in 20% of the runs once known_findings.json has an open entry [C42, 'known-defect', guard]",
+    "no guards of its own: a plan['unguarded'] key in older replay files is accepted and ignored",
     "runs execute in-process (ISOLATION=thread): each run builds tree, model and Sim from scratch",
 ]
 STEP_CAP = 200000
 ISOLATION = "thread"
-
-# Defects of the code under test found by this check.  While a guard is on, no export is
-# generated / executed that runs into it, so that the rest of the space is explored.
-GUARDS = {
-    # ContentFilterTree does not implement get_symlink_target: `brz export --filters` of
-    # anything that contains a symlink raises NotImplementedError (every format)
-    "filtered_symlink": True,
-    # ContentFilterTree does not implement get_file_mtime (nor is_versioned, which the tgz
-    # exporter asks first): `brz export --filters --per-file-timestamps` raises
-    # NotImplementedError as soon as there is one entry (tgz: even for an empty tree)
-    "filtered_pft": True,
-}
-P_UNGUARDED = float(os.environ.get("VERIF_UNGUARDED", "0") or 0)
-P_LIFT = 0.2
 
 # format -> extensions the registry maps to it
 FORMATS = {
@@ -159,40 +145,13 @@ def make_names(rng):
     return sorted(out)
 
 
-def lifted_guards():
-    from simkit import findings
-
-    out = set()
-    for e in findings.load(PROPERTY):
-        s = e.get("signature") or []
-        if e.get("status") == "open" and len(s) >= 3 and s[0] == PROPERTY and s[1] == "known-defect" and s[2] in GUARDS:
-            out.add(s[2])
-    return sorted(out)
-
-
 def snapshot_dirs(flavour, snap):
     if flavour == "bzr":
         return sorted(p for p, e in snap.items() if p and e[1] == T.DIR)
     return sorted({a for p in snap for a in T.ancestors(p) if a})
 
 
-def has_symlink_below(snap, sub):
-    sub = (sub or "").rstrip("/")
-    return any(e[1] == T.LINK and T.inside(sub, p) for p, e in snap.items())
-
-
-def guard_for(ex, snap):
-    """The GUARDS entry an export may run into (over-approximation), or None."""
-    if not ex.get("filtered"):
-        return None
-    if ex.get("pft"):
-        return "filtered_pft"
-    if has_symlink_below(snap, ex.get("subdir")):
-        return "filtered_symlink"
-    return None
-
-
-def gen_export(rng, flavour, revname, snap, last, guards, n):
+def gen_export(rng, flavour, revname, snap, last, n):
     fmt = rng.choice(["dir", "tar", "tar", "tgz", "tbz2", "txz", "tlzma", "zip", "zip"])
     explicit = rng.random() < 0.5 or fmt == "dir" and rng.random() < 0.5
     ext = rng.choice(FORMATS[fmt])
@@ -223,14 +182,6 @@ def gen_export(rng, flavour, revname, snap, last, guards, n):
         "fileobj": fmt != "dir" and rng.random() < 0.2,
         "src": "basis" if (last and flavour == "bzr" and rng.random() < 0.35) else "repo",
     }
-    g = guard_for(ex, snap)
-    if g in guards:
-        # stay out of the reported defect, keep the rest of the case
-        if g == "filtered_pft":
-            ex["pft"] = False
-            g = guard_for(ex, snap)
-        if g in guards:
-            ex["filtered"] = False
     return ex
 
 
@@ -242,9 +193,6 @@ def generate(rng, tier):
     weights["symlink"] = max(weights["symlink"], 2)
     weights["chmod"] = max(weights["chmod"], 2)
     weights["mkdir"] = max(weights["mkdir"], 2)
-    x = rng.random()
-    unguarded = sorted(GUARDS) if x < P_UNGUARDED else lifted_guards() if x < P_LIFT else []
-    guards = {g for g, on in GUARDS.items() if on and g not in unguarded}
     model = XTree(flavour)
     ops = T.gen_ops(rng, model, rng.randint(8, 26), weights, names)
     if not model.revs or rng.random() < 0.5:
@@ -258,10 +206,8 @@ def generate(rng, tier):
         for n in range(rng.randint(3, 8)):
             ri = len(model.revs) - 1 if rng.random() < 0.5 else rng.randrange(len(model.revs))
             revname, snap = model.revs[ri]
-            exports.append(gen_export(rng, flavour, revname, snap, ri == len(model.revs) - 1, guards, n))
+            exports.append(gen_export(rng, flavour, revname, snap, ri == len(model.revs) - 1, n))
     plan = {"flavour": flavour, "names": names, "weights": weights, "ops": ops, "exports": exports}
-    if unguarded:
-        plan["unguarded"] = unguarded
     return plan
 
 
@@ -306,13 +252,12 @@ def default_root(dest):
 
 
 def expected_export(snap, flavour, subdir):
-    """(required, optional): exported path -> (kind, data, exec) for a revision-tree
-    snapshot {path: (kind, data, exec, file id)}.  required = entries of the requested
-    sub-tree that are not special to the VCS; optional = the special ones (a filtered export
-    may or may not contain them)."""
+    """exported path -> (kind, data, exec) for a revision-tree snapshot
+    {path: (kind, data, exec, file id)}: the entries of the requested sub-tree whose TREE path
+    is not special to the VCS."""
     sub = (subdir or "").rstrip("/") or None
     prefix = SPECIAL_PREFIX[flavour]
-    req, opt = {}, {}
+    req = {}
     for p, (k, data, x, _fid) in snap.items():
         if p == "":
             continue
@@ -326,8 +271,10 @@ def expected_export(snap, flavour, subdir):
             final = p[len(sub) + 1 :]
         else:
             continue
-        (opt if p.startswith(prefix) else req)[final] = (k, data, bool(x) if k == T.FILE else False)
-    return req, opt
+        if p.startswith(prefix):
+            continue
+        req[final] = (k, data, bool(x) if k == T.FILE else False)
+    return req
 
 
 def zip_view(entries):
@@ -440,9 +387,7 @@ def _h(obj):
     return hashlib.sha1(repr(obj).encode("utf-8", "replace")).hexdigest()[:12]
 
 
-def fail(sim, tag, rest, detail, territory=None):
-    if territory:
-        sim.fail(tag, [PROPERTY, "known-defect", territory], "[%s, in the territory of %s] %s" % (tag, territory, detail))
+def fail(sim, tag, rest, detail):
     sim.fail(tag, [PROPERTY, tag] + list(rest), detail)
 
 
@@ -467,7 +412,7 @@ def revtree_snapshot(sim, rt, model_snap, fl, rev):
     return snap
 
 
-def do_export(sim, tree, model, fl, i, ex, revids, times, unguarded):
+def do_export(sim, tree, model, fl, i, ex, revids, times):
     from breezy.export import export
 
     rev = ex["rev"]
@@ -476,11 +421,6 @@ def do_export(sim, tree, model, fl, i, ex, revids, times, unguarded):
         return None
     idx = [r for r, _s in model.revs].index(rev)
     model_snap = model.revs[idx][1]
-    guard = guard_for(ex, model_snap)
-    if guard and guard not in unguarded:
-        sim.event("export", i, "skip", "guard", guard)
-        return None
-    territory = guard if guard in unguarded else None
     fmt = ex["fmt"]
     fam = fmt if fmt in ("dir", "zip") else "tarball"  # one signature per exporter, not per compression
     sub = ex["subdir"]
@@ -500,9 +440,7 @@ def do_export(sim, tree, model, fl, i, ex, revids, times, unguarded):
         rt = tree.branch.repository.revision_tree(revids[rev])
         src = "repo"
     snap = revtree_snapshot(sim, rt, model_snap, fl, rev)
-    req, opt = expected_export(snap, fl, sub)
-    if not ex["filtered"]:
-        opt = {}
+    req = expected_export(snap, fl, sub)
     what = "export %d %s" % (i, json.dumps(ex, sort_keys=True, ensure_ascii=False))
 
     scratch = os.environ["VERIF_SCRATCH"]
@@ -528,13 +466,8 @@ def do_export(sim, tree, model, fl, i, ex, revids, times, unguarded):
         import traceback
 
         site = traceback.extract_tb(e.__traceback__)[-1]
-        known = None
-        if territory and isinstance(e, NotImplementedError) and ex["filtered"]:
-            known = {"get_symlink_target": "filtered_symlink", "get_file_mtime": "filtered_pft", "is_versioned": "filtered_pft"}.get(site.name)
-            if known not in unguarded:
-                known = None
         tb = "".join(traceback.format_exception(type(e), e, e.__traceback__)[-4:])
-        fail(sim, "export_raised", [fl, fam, type(e).__name__, site.name], "%s raised %r\n%s" % (what, e, tb), known)
+        fail(sim, "export_raised", [fl, fam, type(e).__name__, site.name], "%s raised %r\n%s" % (what, e, tb))
 
     # -- read back ------------------------------------------------------------------------
     if fmt == "dir":
@@ -565,17 +498,14 @@ def do_export(sim, tree, model, fl, i, ex, revids, times, unguarded):
     def under_root(entries):
         return {(posixpath.join(root, p) if root else p): v for p, v in entries.items()}
 
-    if fmt == "zip":
-        req_v, opt_v = under_root(zip_view(req)), under_root(zip_view(opt))
-    else:
-        req_v, opt_v = under_root(req), under_root(opt)
+    req_v = under_root(zip_view(req) if fmt == "zip" else req)
     got = {p: v[:3] for p, v in members.items()}
     if fmt == "zip":
         got = {p: (k, d, False) for p, (k, d, _x) in got.items()}
     outside = sorted(p for p in got if root and not p.startswith(root + "/"))
     if outside:
-        fail(sim, "outside_root", [fl, fam], "%s: members outside the root %r: %r" % (what, root, outside[:6]), territory)
-    got_req = {p: v for p, v in got.items() if p not in opt_v or p in req_v}
+        fail(sim, "outside_root", [fl, fam], "%s: members outside the root %r: %r" % (what, root, outside[:6]))
+    got_req = got
     if got_req != req_v:
         tag = "content"
         if set(got_req) != set(req_v):
@@ -584,17 +514,13 @@ def do_export(sim, tree, model, fl, i, ex, revids, times, unguarded):
             tag = "exec"
         elif any(got_req[p][0] != req_v[p][0] for p in req_v):
             tag = "kind"
-        fail(sim, tag, [fl, fam], "%s (%s tree): %s" % (what, src, _diff(req_v, got_req)), territory)
-    for p, v in got.items():
-        if p in opt_v and p not in req_v and v != opt_v[p]:
-            fail(sim, "content", [fl, fam, "special"], "%s: special path %r exported as %s, tree has %s" % (what, p, _short(v), _short(opt_v[p])), territory)
-
+        fail(sim, tag, [fl, fam], "%s (%s tree): %s" % (what, src, _diff(req_v, got_req)))
     # -- unpack as a user would -------------------------------------------------------------
     if fmt != "dir":
         try:
             disk = extract(dest, fmt, os.path.join(outdir, "unpacked"))
         except Exception as e:  # noqa: BLE001 - whatever the standard tools refuse
-            fail(sim, "unpack", [fl, fam, type(e).__name__], "%s: extracting the archive raised %r" % (what, e), territory)
+            fail(sim, "unpack", [fl, fam, type(e).__name__], "%s: extracting the archive raised %r" % (what, e))
         want_disk = dict(got)
         for p in got:
             for a in T.ancestors(p):
@@ -603,11 +529,11 @@ def do_export(sim, tree, model, fl, i, ex, revids, times, unguarded):
         if fmt == "zip":
             disk = {p: (k, d, False) for p, (k, d, _x) in disk.items()}
         if disk != want_disk:
-            fail(sim, "unpack", [fl, fam, "differs"], "%s: extracted files differ from the members: %s" % (what, _diff(want_disk, disk)), territory)
+            fail(sim, "unpack", [fl, fam, "differs"], "%s: extracted files differ from the members: %s" % (what, _diff(want_disk, disk)))
 
     # -- per-file timestamps ------------------------------------------------------------------
     if ex["pft"] and fmt != "zip":
-        check_times(sim, fl, fmt, fam, what, ex, model, idx, times, members, root, sub, territory)
+        check_times(sim, fl, fmt, fam, what, ex, model, idx, times, members, root, sub)
 
     shape = sorted((p, v[0], len(v[1]) if v[1] is not None else -1, v[2]) for p, v in req_v.items())
     sim.event("export", i, rev, fmt, ex["dest"], repr(ex["root"]), repr(sub), "pft" if ex["pft"] else "-", "filtered" if ex["filtered"] else "-", src, len(got), _h(sorted(got.items())))
@@ -618,8 +544,6 @@ def do_export(sim, tree, model, fl, i, ex, revids, times, unguarded):
         if ex[flag]:
             sim.probe(flag)
     sim.probe("src_" + src)
-    if opt_v:
-        sim.probe("special_optional")
     if any(p.startswith(SPECIAL_PREFIX[fl]) for p in snap):
         sim.probe("special_in_tree")
     for k in {v[0] for v in req_v.values()}:
@@ -630,7 +554,7 @@ def do_export(sim, tree, model, fl, i, ex, revids, times, unguarded):
     return len(req_v) >= 2
 
 
-def check_times(sim, fl, fmt, fam, what, ex, model, idx, times, members, root, sub, territory):
+def check_times(sim, fl, fmt, fam, what, ex, model, idx, times, members, root, sub):
     """per_file_timestamps ('Set modification time of files to that of the last revision in
     which it was changed'): see ASSUMPTIONS for the (weak) form asserted."""
     upto = [(r, s) for r, s in model.revs[: idx + 1]]
@@ -660,7 +584,7 @@ def check_times(sim, fl, fmt, fam, what, ex, model, idx, times, members, root, s
                 if same:
                     ok_times.add(times[r])
         if mtime not in ok_times:
-            fail(sim, "pft_mtime", [fl, fam], "%s: member %r has mtime %r; commit times at which it had this content: %r" % (what, name, mtime, sorted(ok_times)), territory)
+            fail(sim, "pft_mtime", [fl, fam], "%s: member %r has mtime %r; commit times at which it had this content: %r" % (what, name, mtime, sorted(ok_times)))
 
 
 # --------------------------------------------------------------------------------------
@@ -674,7 +598,7 @@ def execute(sim, plan):
     T.settle_randomness(sim.seed)
     world.setup_sim(sim)
     fl = plan["flavour"]
-    unguarded = set(plan.get("unguarded", ()))
+    # plan["unguarded"] (replay files written while this check still had guards) is ignored
     T.relativise_log(sim, os.path.join(os.environ["VERIF_SCRATCH"], "t"))
     tree = T.make_tree(sim, fl, "t")
     model = XTree(fl)
@@ -709,7 +633,7 @@ def execute(sim, plan):
     compared = 0
     rich = False
     for i, ex in enumerate(plan.get("exports", [])):
-        r = do_export(sim, tree, model, fl, i, ex, revids, times, unguarded)
+        r = do_export(sim, tree, model, fl, i, ex, revids, times)
         if r is not None:
             compared += 1
             rich = rich or bool(r)
@@ -787,12 +711,12 @@ def warm():
             sc = os.path.join(tmp, fl)
             os.makedirs(os.path.join(sc, "home"))
             os.environ.update(VERIF_SCRATCH=sc, BRZ_HOME=os.path.join(sc, "home"), HOME=os.path.join(sc, "home"))
-            plan = {"flavour": fl, "ops": WARM_OPS, "exports": _warm_exports(), "unguarded": sorted(GUARDS)}
+            plan = {"flavour": fl, "ops": WARM_OPS, "exports": _warm_exports()}
             sim = Sim(1, plan, step_cap=10**6)
             try:
                 execute(sim, plan)
             except Violation:
-                pass  # the last two exports run into the guarded defects on purpose
+                pass
             except Exception:  # noqa: BLE001 - a dry run; real runs report
                 pass
     finally:
